@@ -55,6 +55,8 @@ type epOpts struct {
 	Alloc string `json:"alloc,omitempty"`
 	// client/txpool is the memory pool: its own txChecker is the installed chain.TrustedTxChecker (realpool.go)
 	RealPool bool `json:"real_pool,omitempty"`
+	// BIP68/112/113 activate at this height instead of 1 (forkedge.go)
+	CSVAt uint32 `json:"csv_at,omitempty"`
 }
 
 type replayDoc struct {
@@ -111,7 +113,7 @@ func newEpisode(r *Run, o *vlib.Oracle, g *vlib.Rng, opts epOpts) *episode {
 		chOpts = realPoolChainOpts(chOpts) // realpool.go: BlockMinedCB / BlockUndoneCB -> client/txpool
 	}
 	installAlloc(opts.Alloc) // alloc.go: utxo.Memory_Malloc / Memory_Free for the records of this chain
-	k, err := chainkit.New(chainkit.Opts{GenesisTime: genesisTime, NoCSV: opts.NoCSV, NoSegWit: opts.NoSegWit, NoTaproot: opts.NoSegWit, ChainOpts: chOpts}, g)
+	k, err := chainkit.New(chainkit.Opts{GenesisTime: genesisTime, CSV: opts.CSVAt, NoCSV: opts.NoCSV, NoSegWit: opts.NoSegWit, NoTaproot: opts.NoSegWit, ChainOpts: chOpts}, g)
 	if err != nil {
 		fmt.Fprintln(os.Stderr, "chainkit:", err)
 		os.Exit(3)
@@ -168,7 +170,7 @@ func (e *episode) parseOn(raw []byte, parent *chain.BlockTreeNode, ref utxoMap) 
 	c := &cand{hash: bl.Hash.Hash[:], height: parent.Height + 1, time: bl.BlockTime(), mtp: parent.GetMedianTimePast()}
 	c.p2sh = true
 	c.wit = !e.opts.NoSegWit
-	c.csv = !e.opts.NoCSV
+	c.csv = !e.opts.NoCSV && c.height >= e.opts.CSVAt // (CSVAt = 0: active from height 1)
 	c.txs = bl.Txs
 	flags := e.k.Ch.GetBlockFlags(c.height, c.time)
 	// script verdict per input against the coin the sequential semantics names (oracle Bool of model and spec)
@@ -176,6 +178,7 @@ func (e *episode) parseOn(raw []byte, parent *chain.BlockTreeNode, ref utxoMap) 
 	gone := map[btc.TxPrevOut]bool{}
 	c.scriptOk = make([][]bool, len(c.txs))
 	c.found = make([][]bool, len(c.txs))
+	c.spentOuts = make([][]*btc.TxOut, len(c.txs))
 	for ti, tx := range c.txs {
 		if ti > 0 {
 			oks := make([]bool, len(tx.TxIn))
@@ -207,6 +210,7 @@ func (e *episode) parseOn(raw []byte, parent *chain.BlockTreeNode, ref utxoMap) 
 			}
 			c.scriptOk[ti] = oks
 			c.found[ti] = fnd
+			c.spentOuts[ti] = spent
 		}
 		for i, o := range tx.TxOut {
 			p := btc.TxPrevOut{Hash: tx.Hash.Hash, Vout: uint32(i)}
@@ -307,7 +311,9 @@ func (e *episode) judge(kind string, raw []byte, fullDump bool) *outcome {
 	// property: accepted ⇒ valid
 	if oc.accepted && gerr != "" {
 		key := "accepted-invalid:" + gerr
-		if e1, _, _ := refConnect(e.ref, c, "bip68"); e1 == "" {
+		if gerr == "script" && e.staleVerdictOnly(c) {
+			key = "pool-verdict-predates-soft-fork" // forkedge.go
+		} else if e1, _, _ := refConnect(e.ref, c, "bip68"); e1 == "" {
 			key = "bip68-not-enforced"
 		} else if e2, _, _ := refConnect(e.ref, c, "opreturn"); e2 == "" {
 			key = "sigops-after-op-return"
@@ -571,6 +577,9 @@ func main() {
 		t0 = time.Now()
 		if only := os.Getenv("VERIF_C04_ONLY"); only == "" || only == "walk" {
 			runWalkEpisodes(r, o) // walk.go: multi-step histories with several re-organisations
+		}
+		if only := os.Getenv("VERIF_C04_ONLY"); only == "" || only == "forkedge" {
+			runForkEdgeEpisodes(r, o) // forkedge.go: the real pool across the activation height of a rule
 		}
 		r.Extra["walk_episodes_s"] = time.Since(t0).Seconds()
 		r.Extra["oracle_block_s"] = tOracle.Seconds()
